@@ -204,6 +204,7 @@ def run_db_method(mir, name, args_fn, on_path, loop_bound=3):
     fn = mir.method('DB', name)
     S = lock_summaries(mir)
     ex = Exec(mir, S, loop_bound=loop_bound, opaque_calls_ok=True, max_paths=5000)
+    ex.lax_mut = True        # only lock events are modelled here; callees outside impl DB are opaque by design (stated in the bounds)
     ex.prune_key = lambda env: (held_at(env['$state']['events'], len(env['$state']['events'])), tuple(sorted(set(e for e in env['$state']['events'] if e[0] == 'read'))))
     ex.inline_filter = lambda f: f.path.startswith('db::') and ('<impl at src/db.rs' in f.path) and f.name not in ('open', 'recover', 'remove_obsolete_files')
     env = {'$state': {'events': []}, '$db': {'abstract': True, '__ty': 'DB'}, '$g': {'abstract': True, '__ty': 'GuardedDbFields'}}
